@@ -267,30 +267,10 @@ class Text(ExcelType):
     def __Blank__(self):
         return self.__class__('')
 
-    def __lt__(self, other):
-        # Text is always greater for comparison and is not converted.
-        if isinstance(other, DateTime):
-            return Boolean(False)
-
-        return Boolean(self.value.upper() < str(other).upper())
-
-    def __le__(self, other):
-        return Boolean(self.value.upper() <= str(other).upper())
-
-    def __eq__(self, other):
-        if self.value in (None, '') and other in (None, ''):
-            return Boolean(True)
-
-        return Boolean(self.value.upper() == str(other).upper())
-
-    def __ne__(self, other):
-        return Boolean(self.value.upper() != str(other).upper())
-
-    def __gt__(self, other):
-        return Boolean(self.value.upper() > str(other).upper())
-
-    def __ge__(self, other):
-        return Boolean(self.value.upper() >= str(other).upper())
+    def _sort_key(self, other):
+        # Text sorts after all numbers and before booleans (see
+        # `sort_precedence`) and compares case-insensitively with other text.
+        return (self.sort_precedence, self.value.upper())
 
     def __hash__(self):
         return hash(self.value)
@@ -359,6 +339,9 @@ class Blank(ExcelType):
         return isinstance(value, (cls,) + cls.native_types) or value == ''
 
     def _sort_key(self, other):
+        if isinstance(other, (Blank, DateTime)):
+            # Two blanks are equal; next to a date a blank counts as 0.
+            return Number(0)._sort_key(other)
         return other.__Blank__()._sort_key(self)
 
     def __and__(self, other):
